@@ -80,9 +80,18 @@ PROPS["C13"] = dict(
     note="threading.local semantics assumed (per-thread attribute namespace); contextlib.contextmanager protocol assumed; schedules are not "
          "explored, thread-locality is a rely condition")
 PROPS["C16"] = dict(
-    level="proof", contracts=["contracts.c16", "contracts.extract_iter", "contracts.c13"],
+    level="other", contracts=["contracts.c16", "contracts.extract_iter", "contracts.c13"],
     unit_filter=lambda u: u.name in ("C16.better_origin", "C05.extract_iter", "C13.extract_outermost"),
     legs=[dict(name="chains_C16", cmd="PYTHONPATH={repo} " + PY312 + " legs/chains.py C16")], technique=TECH,
+    explanation="Deductive part (all inputs): better_origin's result is characterised exactly; at the only place a Frame is built in "
+                "extract_iter a non-None origin is a weak-referenceable generator-like object whose own gi_frame / cr_frame / ag_frame IS "
+                "that frame, a generator-like origin arriving with its own frame is kept, queue entries carry such an item as its own "
+                "origin; extract_outermost returns the first value yielded by the same generator under the same options and raises the "
+                "group / the single error / RuntimeError otherwise. RESIDUE: 'extract_outermost(origin).pyframe is that frame' and "
+                "'every frame found inside a suspended object has it as origin' are compositions of these clauses with the built-in "
+                "unwrappers (units C03.*) and the hook dispatch; the composition is argued, not machine-checked, and is what the bounded "
+                "leg checks natively (all chains of depth <= 2 over 8 link kinds, exiting outermost frame, hooks using next_inner, "
+                "hook redirects to suspended objects in single / tuple / insert form, running coroutine, foreign frames).",
     claim="better_origin's result is characterised exactly; at the only place a Frame is built in extract_iter a non-None origin is a "
           "generator-like object whose own gi_frame/cr_frame/ag_frame IS that frame, and a generator-like origin arriving with its own "
           "frame is kept; queue entries carry a weak-referenceable generator-like item as its own origin; extract_outermost returns the "
